@@ -94,6 +94,14 @@ class Report:
     def check(self, cond, rule, where, construct, detail=None, clause=None):
         return (self.ok if cond else self.violation)(rule, where, construct, detail, clause)
 
+    def recognise(self, cond, rule, where, construct, detail=None, clause=None):
+        """for a rule that matches ONE spelling: an OK instance when the spelling is there, otherwise the part is not
+        recognised (AnalysisError - to be used inside a structural_section, whose clause a fold decides)"""
+        from .tree import AnalysisError
+        if not cond:
+            raise AnalysisError(f"{construct}: spelling not recognised")
+        return self.ok(rule, where, construct, detail, clause)
+
     def assume(self, text):
         if text not in self.assumptions:
             self.assumptions.append(text)
